@@ -72,17 +72,18 @@ def runBook (ops : List String) : String :=
   match ops.mapM parseOp with
   | none => "bad-payload"
   | some ops =>
-    let rec go (s : Book.RM) (ops : List Book.Op) (acc : List String) : List String :=
+    let rec go (s : Book.RM) (ops : List Book.Op) (acc : List String) : List String × Book.RM :=
       match ops with
-      | [] => acc.reverse
+      | [] => (acc.reverse, s)
       | op :: rest =>
         match Book.step Book.current s op with
-        | none => ("P" :: acc).reverse
+        | none => (("P" :: acc).reverse, s)
         | some s' => go s' rest (toString (Book.highestPriority s') :: acc)
     let out := go {} ops []
     let nt := ops.any (fun | .finish _ => true | _ => false) &&
       (ops.filter (fun | .activate _ => true | .skip _ => true | _ => false)).length ≥ 2
-    joinOr "," out ++ (if nt then "\tnt=1" else "")
+    joinOr "," out.1 ++ " act=" ++ String.ofList (out.2.mons.map fun m => if m.activated then '1' else '0')
+      ++ (if nt then "\tnt=1" else "")
 
 def parseRules (s : String) : Option (List (Int × Bool)) :=
   if s == "-" then some [] else
@@ -116,7 +117,17 @@ def runRoot (one : Bool) (flag : Bool) (s : String) : String :=
     if st.bad then "MODEL-ASSERT" else
     let started := st.started.reverse
     let errs := joinOr "." ((sortPairs st.errs).map showPair)
-    let fin := s!" end={Book.highestPriority st.rm}"
+    -- event paths of the failed events (reported when the root monitor itself carries an event)
+    let rootHasEvent := (nodes[0]?.map (·.prio.isNone)).getD false
+    let rec chain (fuel e : Nat) : List Nat :=
+      match fuel, (nodes[e]?.bind (·.parent)) with
+      | fuel + 1, some (p, _) => chain fuel p ++ [e]
+      | _, _ => if e == 0 then [0] else [0, e]
+    let failed := (sortNats (st.errs.map (·.1))).eraseDups
+    let paths := if rootHasEvent then
+        joinOr ";" (failed.map fun e => s!"{e}:" ++ ">".intercalate ((chain nodes.length e).map toString))
+      else "-"
+    let fin := s!" path={paths} end={Book.highestPriority st.rm}"
     if one then
       joinOr "." (started.map fun (p, hp) => s!"{showPair p}@{hp}") ++ " err=" ++ errs ++ fin
     else
